@@ -237,6 +237,29 @@ Theorem committee_exact_size :
 Proof. exact SizeProofs.committee_exact_size. Qed.
 Print Assumptions committee_exact_size.
 
+(* The candidate pool of a role is the per-entity de-duplicated one ... *)
+Theorem role_pool_deduplicated :
+  forall p ents vents epoch rt src cs cnodes lim e,
+    c_max cs = Some lim -> 0 < lim ->
+    count_node_ent e (role_pool p ents vents epoch rt src cs cnodes) <= lim.
+Proof. exact SizeProofs.role_pool_deduplicated. Qed.
+Print Assumptions role_pool_deduplicated.
+
+(* ... and an elected committee's pool AFTER that de-duplication has at least
+   MinPoolSize nodes (each filled role); no entity has more than MaxNodes
+   members among the workers, nor among the backups. *)
+Theorem committee_pool_and_limits :
+  forall fv p ents vents epoch rt cnodes blocked sw sb ms,
+    elect_committee fv p ents vents epoch rt cnodes blocked sw sb = Some ms ->
+    min_pool (r_cw rt) <= len (role_pool p ents vents epoch rt sw (r_cw rt) cnodes) /\
+    (r_bsize rt <> 0 -> min_pool (r_cb rt) <= len (role_pool p ents vents epoch rt sb (r_cb rt) cnodes)) /\
+    exists w b,
+      ms = map (fun n => (ROLE_WORKER, n_id n)) w ++ map (fun n => (ROLE_BACKUP, n_id n)) b /\
+      (forall lim, c_max (r_cw rt) = Some lim -> forall e, count_node_ent e w <= lim) /\
+      (forall lim, c_max (r_cb rt) = Some lim -> forall e, count_node_ent e b <= lim).
+Proof. exact SizeProofs.committee_pool_and_limits. Qed.
+Print Assumptions committee_pool_and_limits.
+
 (* A whole block (trigger + slashing + election + diff + committees): whenever
    it elects -- on an epoch change or because stake was slashed inside the
    epoch -- every eligibility clause holds against the POST-slash stakes and
